@@ -72,7 +72,7 @@ theorem list_one_line_fits (c : Consts) (L : Limits) (xs : List J) (off : Nat) (
         exact absurd (wrappedList_has_marker _ _ _) h
 
 /-- a non-empty dict printed on one line ends left of the one-line limit -/
-theorem dict_one_line_fits (c : Consts) (L : Limits) (kvs : List (List Char × J)) (off : Nat)
+theorem dict_one_line_fits (c : Consts) (L : Limits) (kvs : List (Key × J)) (off : Nat)
     (hne : kvs ≠ []) (h : none ∉ gen c L (.dict kvs) off) :
     off + (text (gen c L (.dict kvs) off)).length < L.oneLineDict := by
   rw [text_length_of_not_mem h]
